@@ -298,7 +298,67 @@ func (g *gen) protectedBody(fc *fctx, noParams bool) (string, *fnSig, []Stmt) {
 	return name, sig, []Stmt{&Local{Names: []string{name}, Exprs: []Expr{Func{fd}}}}
 }
 
+// sXpcallEscape: the protected body creates a closure over one of its locals, lets it escape, then fails with an
+// error value of a drawn type; the handler returns, concatenates (fails for non-strings) or always raises; the
+// escaped closure is used after registers were reused.
+func (g *gen) sXpcallEscape(fc *fctx) []Stmt {
+	g.use("xpcall_escape")
+	v, f, gn, body, h, e := g.fresh("ev"), g.fresh("ef"), g.fresh("GE"), g.fresh("body"), g.fresh("hd"), g.fresh("e")
+	sig0 := &fnSig{nparams: 0, rets: []retT{{k: kNum}}, cost: 4}
+	g.prog.NFuncs++
+	fdef := &FuncDef{ID: g.prog.NFuncs, Body: []Stmt{
+		&Assign{Targets: []Expr{Var{v}}, Exprs: []Expr{Bin{"+", Var{v}, Num{1}}}},
+		&Return{Exprs: []Expr{Var{v}}}}}
+	var raise Stmt
+	switch g.ch(5) {
+	case 0:
+		raise = &Call{Fn: Var{"error"}, Args: []Expr{TableCons{Keys: []string{"code"}, Vals: []Expr{Num{3}}}}}
+	case 1:
+		raise = &Call{Fn: Var{"error"}, Args: []Expr{Nil{}}}
+	case 2:
+		raise = &Call{Fn: Var{"error"}, Args: []Expr{True{}}}
+	case 3:
+		raise = &Call{Fn: Var{"error"}, Args: []Expr{Str{"E2"}}}
+	default:
+		raise = &Call{Fn: Var{"error"}, Args: []Expr{Num{41}}}
+	}
+	g.prog.NFuncs++
+	bdef := &FuncDef{ID: g.prog.NFuncs, Body: []Stmt{
+		&Local{Names: []string{v}, Exprs: []Expr{Num{float64(10 + g.ch(20))}}},
+		&Local{Names: []string{f}, Exprs: []Expr{Func{fdef}}},
+		&Assign{Targets: []Expr{Var{gn}}, Exprs: []Expr{Var{f}}},
+		&Call{Fn: Var{gn}},
+		raise,
+	}}
+	var hbody []Stmt
+	switch g.ch(3) {
+	case 0:
+		hbody = []Stmt{&Return{Exprs: []Expr{Str{"H"}}}}
+	case 1:
+		hbody = []Stmt{&Return{Exprs: []Expr{Bin{"..", Str{"H."}, Var{e}}}}}
+	default:
+		hbody = []Stmt{&Call{Fn: Var{"error"}, Args: []Expr{Str{"E4"}, Num{0}}}}
+	}
+	g.prog.NFuncs++
+	hdef := &FuncDef{ID: g.prog.NFuncs, Params: []string{e}, Body: hbody}
+	g.globals = append(g.globals, &varInfo{name: gn, k: kFn, sig: sig0, global: true})
+	ok, r, r1, r2 := g.fresh("ok"), g.fresh("xr"), g.fresh("er"), g.fresh("er")
+	g.cost(20)
+	out := []Stmt{
+		&Local{Names: []string{body}, Exprs: []Expr{Func{bdef}}},
+		&Local{Names: []string{h}, Exprs: []Expr{Func{hdef}}},
+		&Call{Names: []string{ok, r}, Fn: Var{"xpcall"}, Args: []Expr{Var{body}, Var{h}}},
+		g.emitVars("xe", ok, r),
+	}
+	out = append(out, g.sClobberN(30)...)
+	out = append(out, &Call{Names: []string{r1}, Fn: Var{gn}}, &Call{Names: []string{r2}, Fn: Var{gn}}, g.emitVars("xe2", r1, r2))
+	return out
+}
+
 func (g *gen) sPcall(fc *fctx, x bool) []Stmt {
+	if x && g.feat("closure") && g.ch(6) == 0 {
+		return g.sXpcallEscape(fc)
+	}
 	var out []Stmt
 	var fname string
 	var sig *fnSig
@@ -787,7 +847,7 @@ func (g *gen) resumeStmts(fc *fctx, co *varInfo) []Stmt {
 		&Call{Names: []string{st}, Fn: Var{"costatus"}, Args: []Expr{Var{co.name}}},
 		g.emitVars("rs", ok, a, b, st),
 	}
-	return out
+	return append(out, g.selfProbe(fc)...)
 }
 
 func (g *gen) wrapCall(fc *fctx, w string, sig *fnSig) []Stmt {
@@ -799,7 +859,25 @@ func (g *gen) wrapCall(fc *fctx, w string, sig *fnSig) []Stmt {
 	}
 	ok, a, b := g.fresh("ok"), g.fresh("wa"), g.fresh("wb")
 	g.declare(&varInfo{name: ok, k: kBool, fnLevel: fc.level})
-	return []Stmt{&Call{Names: []string{ok, a, b}, Fn: Var{"pcall"}, Args: args}, g.emitVars("wr", ok, a, b)}
+	out := []Stmt{&Call{Names: []string{ok, a, b}, Fn: Var{"pcall"}, Args: args}, g.emitVars("wr", ok, a, b)}
+	return append(out, g.selfProbe(fc)...)
+}
+
+// selfProbe: inside a coroutine body that remembered itself, check after a nested resume that the running
+// coroutine is still this one and that its own status is "running".
+func (g *gen) selfProbe(fc *fctx) []Stmt {
+	if !fc.canYield || !g.feat("selfstatus") {
+		return nil
+	}
+	selfs := g.visible(func(v *varInfo) bool { return v.k == kSelf && v.fnLevel == fc.level })
+	if len(selfs) == 0 {
+		return nil
+	}
+	me := selfs[0].name
+	r, st := g.fresh("rn"), g.fresh("ss")
+	g.use("self_probe_after_resume")
+	return []Stmt{&Call{Names: []string{r}, Fn: Var{"corunning"}}, &Call{Names: []string{st}, Fn: Var{"costatus"}, Args: []Expr{Var{me}}},
+		&Call{Fn: Var{"emit"}, Args: []Expr{Str{"me"}, Bin{"==", Var{r}, Var{me}}, Var{st}}}}
 }
 
 // Generate draws a program from the tape.
